@@ -366,7 +366,7 @@ func TestC16(t *testing.T) {
 		evalEnum(c, "workload", w, checkC16, &nviol)
 	}
 	tpls := append([]string{"{{range $i, $e := .Version}}{{$e}}{{end}}", "{{if eq .SeverityValue \"High\"}}!{{end}}{{.Version}}"}, c16Templates...)
-	c.rapidStage("workloads", pick(480, 24000), func(rt *rapid.T) {
+	c.rapidStage("workloads", pick(1600, 24000), func(rt *rapid.T) {
 		var w workload
 		np := rapid.IntRange(1, 6).Draw(rt, "poolsize")
 		for i := 0; i < np; i++ {
